@@ -7,7 +7,7 @@ import math
 import numpy as np
 
 from checks import specgen as SG
-from checks.common import hash_tag, relayout, xf_build, xf_names
+from checks.common import hash_tag, relayout, xf_build, xf_names, hermitian_exact_zero
 from qmc import gen as G
 from qmc import oracle as O
 from qmc.loader import load
@@ -48,6 +48,13 @@ def cases(tier, seed):
             if max(m, n) > 4 and nm in ("rowgraded", "colgraded"):
                 continue  # grading 2^-9 per row reaches the rank threshold beyond 4 rows: borderline by construction, nothing to decide
             out.append({"key": f"rank/xf/{m}x{n}/{nm}", "grp": "rank", "m": m, "n": n, "vals": None, "kU": "xf", "kV": "xf", "xf": nm})
+    # exactly Hermitian inputs with one EXACT zero eigenvalue: rank n-1, one non-zero null vector on each side
+    for n_ in (8, 12, 32, 33):
+        for where in ("last", "first", "diag"):
+            out.append({"key": f"rank/exactzero/n={n_}/{where}", "grp": "rank", "m": n_, "n": n_, "vals": None, "kU": "xf", "kV": "xf", "ez": where})
+    # Kahan-type triangular matrices (1 on the diagonal, -1 above, conjugated by unit quaternions): every LU pivot is 1, sigma_min ~ 2^-n
+    for n_ in (56, 64):
+        out.append({"key": f"rank/kahan/n={n_}", "grp": "rank", "m": n_, "n": n_, "vals": None, "kU": "xf", "kV": "xf", "kahan": True})
     # exact integer rank-one outer products with one long dimension: the default threshold scales with max(m, n)
     for m, n in ((2, 128), (2, 300), (300, 2), (128, 2), (3, 200), (2, 400)):
         for t in range(3):
@@ -106,8 +113,20 @@ def run_case(case, seed):
     if grp == "rank":
         m, n, vals = case["m"], case["n"], case["vals"]
         lay = "C"
-        if case.get("xf"):
-            A, lay = xf_build(case["xf"], m, n, fill)
+        if case.get("xf") or case.get("ez") or case.get("kahan"):
+            if case.get("ez"):
+                A = hermitian_exact_zero(m, case["ez"], fill)
+            elif case.get("kahan"):
+                T_ = np.zeros((m, m, 4))
+                for i in range(m):
+                    T_[i, i, 0] = 1.0
+                    T_[i, i + 1 :, 0] = -1.0
+                Dq = np.zeros((m, m, 4))
+                for i in range(m):
+                    Dq[i, i] = G.SIGNED_UNITS[(3 * i + 1) % 8]
+                A = O.qmatmul(O.qmatmul(Dq, T_), O.qH(Dq))
+            else:
+                A, lay = xf_build(case["xf"], m, n, fill)
             sv_ = O.svals(A)
             vals = [float(v) if v > 1e-11 * max(sv_[0], 1e-300) else 0.0 for v in sv_]
         else:
